@@ -1,4 +1,5 @@
 import VibeProof.Props.C07
+import VibeProof.Generated.Consts
 import Std
 /-
 C03 — the columnar aggregate fast path returns exactly what row execution returns.
@@ -520,5 +521,15 @@ example : ∃ r, tryColumnar
                 { fn := .max, arg := some 1, distinct := false }],
       preds := [.cmp .ge 0 (.int 0)], having := none, orderBy := false, limit := none, offset := none }
     [[.int 1, .str "b"], [.null, .str "a"], [.int 3, .null]] = some r := ⟨_, rfl⟩
+
+/-! ### constants re-read from the source on every run (tools/consts.d/c03.py) -/
+
+/-- the model's SIMD probe length is the one in `can_use_simd_for_column` -/
+theorem C03_probe_const : simdProbe = VibeProof.Generated.c03SimdProbe := by decide
+
+/-- `should_use_columnar` still rejects every statement part the columnar path does not evaluate -/
+theorem C03_gate_const :
+    ∀ part, part ∈ ["having", "order_by", "limit", "offset", "group_by", "distinct"] →
+      part ∈ VibeProof.Generated.c03GateRejects := by decide
 
 end VibeProof.C03
